@@ -212,12 +212,49 @@ class Walker:
             inner = s["inner"]
             c = self.expr(inner[0])
             saved = (dict(self.vars), dict(self.sizes))
+            tb, bb = set(self.tr.transferred), dict(self.tr.binds)
             t = self.lazy(lambda: self.block(self.body_of(inner[1]), lambda: self.block(rest, cont)))
             self.vars, self.sizes = dict(saved[0]), dict(saved[1])
+            self.tr.transferred, self.tr.binds = set(tb), dict(bb)
             e = self.lazy(lambda: self.block(self.body_of(inner[2]) if len(inner) > 2 else [], lambda: self.block(rest, cont)))
+            self.tr.transferred, self.tr.binds = set(tb), dict(bb)
             return [("ite", c, t, e)]
+        am = self.assigned_member(s)
+        if am and rest and self.synced_member(rest[0]) == am:
+            # `length = palette.length(); stream.Sync(length);`: the value written is computed from the model first; reading
+            # overwrites it with what the file says
+            self.tr.normalisers.add(f"{self.cls}: {am} modified before it is transferred")
+            return self.block(rest, cont)
         head = self.stmt(s)
         return head + self.block(rest, cont)
+
+    def assigned_member(self, s):
+        s = strip(s)
+        if s.get("kind") != "BinaryOperator" or s.get("opcode") != "=":
+            return None
+        lhs = strip(s["inner"][0])
+        if lhs.get("kind") != "MemberExpr":
+            return None
+        try:
+            return self.lval(lhs)[0]
+        except Opaque:
+            return None
+
+    def synced_member(self, s):
+        s = strip(s)
+        if s.get("kind") != "CXXMemberCallExpr" or len(s.get("inner", [])) != 2:
+            return None
+        callee = strip(s["inner"][0])
+        obj = strip(callee["inner"][0]) if callee.get("inner") else None
+        if callee.get("name") != "Sync" or obj is None or obj.get("referencedDecl", {}).get("name") != "stream":
+            return None
+        a0 = strip(s["inner"][1])
+        if a0.get("kind") != "MemberExpr":
+            return None
+        try:
+            return self.lval(a0)[0]
+        except Opaque:
+            return None
 
     def has_return(self, n):
         if n.get("kind") == "ReturnStmt":
@@ -263,14 +300,20 @@ class Walker:
             cvars(c)
             saved_cond = self.in_cond_on
             self.in_cond_on = next(iter(cv)) if len(cv) == 1 else None
+            tb, bb = set(self.tr.transferred), dict(self.tr.binds)
             try:
                 t = self.lazy(lambda: self.stmt(inner[1]))
             finally:
                 self.in_cond_on = saved_cond
             vt = self.vars
             self.vars = dict(before)
+            tt, bt = self.tr.transferred, self.tr.binds
+            self.tr.transferred, self.tr.binds = set(tb), dict(bb)
             e = self.lazy(lambda: self.stmt(inner[2])) if len(inner) > 2 else []
             ve = self.vars
+            # transferred on both paths / bound to the same value on both paths
+            self.tr.transferred = tt & self.tr.transferred
+            self.tr.binds = {k_: v_ for k_, v_ in bt.items() if self.tr.binds.get(k_) == v_}
             # locals assigned in a branch: their value afterwards depends on the condition
             merged = dict(before)
             for n in set(vt) | set(ve):
@@ -357,6 +400,11 @@ class Walker:
                 raise Opaque("assignment to a member")
             if rhs[0] == "lit" and self.in_cond_on == name:
                 self.tr.normalisers.add(f"{self.cls}: {name} clamped to {rhs[1]}")
+                return []
+            if s.get("opcode") == "=" and rhs[0] == "lit" and name in self.tr.transferred:
+                # `numEntities = 2;` after the member was transferred: what follows reads the constant
+                self.tr.binds[name] = rhs
+                self.tr.normalisers.add(f"{self.cls}: {name} set to {rhs[1]} after it was transferred")
                 return []
             if s.get("opcode") == "=" and name.endswith(".type") and re.match(r"NiAnimationKey<", self.member_class(lhs) or ""):
                 # `key.type = interpolation`: a member that is never transferred ("no IO, used for Sync condition only") takes the
@@ -479,7 +527,9 @@ class Walker:
                 labels.append(x)
             elif kind == "stmt" and x.get("kind") == "BreakStmt" or kind == "end":
                 if labels:
+                    tb, bb = set(self.tr.transferred), dict(self.tr.binds)
                     tr = self.block(body)
+                    self.tr.transferred, self.tr.binds = tb, bb
                     for l in labels:
                         if l is None:
                             default = tr
@@ -569,6 +619,7 @@ class Walker:
     def sc(self, ty, name, uses):
         if name in self.tr.binds:
             raise Opaque(f"{name} is transferred although a condition value was bound to it")
+        self.tr.transferred.add(name)
         if ty[0] == "sizeof":
             self.tr.types.add(ty[1])
         if uses != self.loops:
@@ -590,6 +641,14 @@ class Walker:
                 if v and v[0] == "alias":
                     self.member_alias[v[1]] = v[1] + "#as:" + v[3]
                     return self.sc(("sizeof", v[3]), v[1] + "#as:" + v[3], v[2])
+                if v and v[0] == "expr" and a0["referencedDecl"]["name"] in self.ltypes:
+                    # a local is transferred: a wire value of its own (when writing it was computed from the model just before,
+                    # when reading the statements that follow copy it into the model)
+                    n = a0["referencedDecl"]["name"]
+                    loc = (self.prefix + "." if self.prefix else self.cls + "::") + "$" + n
+                    self.vars[n] = ("elem", loc, list(self.loops))
+                    self.tr.normalisers.add(f"{self.cls}: local {n} is transferred (its value when writing is computed from the model)")
+                    return self.sc(("sizeof", self.ltypes[n]), loc, list(self.loops))
             name, uses, ty = self.lval(args[0])
             return self.sc(("sizeof", tname(strip(args[0])["type"].get("desugaredQualType", strip(args[0])["type"]["qualType"]))), name, uses)
         if is_stream and cn == "SyncHalf" and len(args) == 1:
@@ -612,6 +671,12 @@ class Walker:
                     return self.sc(("w", n[1]), name, uses)
                 # a size built from sizeof()s: constant once the compiler has been asked
                 return self.sc(("wexpr", n), name + "#raw", uses)
+            if a0.get("kind") == "MemberExpr" and re.search(r"\[\d+\]$", a0.get("type", {}).get("qualType", "")):
+                # stream.Sync(reinterpret_cast<char*>(byteArrayMember), n): n bytes of a fixed array member
+                name, uses, _ = self.lval(a0)
+                n = self.expr(args[1])
+                if n[0] == "lit":
+                    return self.sc(("w", n[1]), name, uses)
             if a0.get("kind") == "CXXMemberCallExpr" and strip(a0["inner"][0]).get("name") == "data":
                 # stream.Sync((char*) vec.data(), n * sizeof(T)): n*sizeof(T) bytes of the vector's storage
                 name, uses, _ = self.lval(strip(a0["inner"][0])["inner"][0])
@@ -767,6 +832,7 @@ class Translator:
             if m["name"] == "Sync" and m["body"] is not None and "NiStreamReversible" in (m.get("type") or ""):
                 self.syncs.setdefault(m["cls"], m)
         self.loopctr = 0
+        self.transferred = set()         # member locations transferred so far in the class being translated
         self.binds = {}                  # untransferred member -> expression it was assigned (see Walker.stmt)
         self.enumvals = {}
         # members that are never synced and act as per-class constants in conditions
@@ -838,6 +904,7 @@ class Translator:
         if cls not in self.classes:
             raise Opaque("no class of that name in the translation units")
         self.concrete = cls
+        self.binds, self.transferred = {}, set()
         out = []
         for c in self.chain(cls):
             out += self.sub_schema(c, "", [])
